@@ -27,7 +27,10 @@ import Ops.Metadata
             `processed_connectivity_corners_`).
    <counts> `counts-ok`: the numbers of encoded points / faces the encoder model reports equal the decoded
             geometry's.
-   <hyp>    `hyp-ok`: every named hypothesis of the conditional theorems of DracoProps/C01Eb.lean holds on this
+   <hyp>    (follow-up 4: `hyp-fails:` lists only what is still HYPOTHETICAL — `valueBlockHypsIso` (primed), `processedSize`,
+            `ctIsoSide`, `coverage`; what the theorems DERIVE from it — block invariance, `mdIso`, the unprimed
+            `valueBlockHyps`, the conclusion — is evaluated as a check of the theorems: `hyp-derived-fails:`.)
+            `hyp-ok`: every named hypothesis of the conditional theorems of DracoProps/C01Eb.lean holds on this
             case (`EbEnc.valueBlockHyps` for every value block: scheme kinds, block invariance under the change of
             mesh data, the decoder's parent attribute, sizes, int32 range, canonical normals, corner counts,
             crease counts; `EbEnc.ctIsoSideOk`; `EbEnc.tvIsoCheck` / `mdIsoCheck`: the decoder's and the encoder's
@@ -188,30 +191,42 @@ def hypsOf (ch : EbChoices) (o : EbOpts) (g : Geometry) (enc : Encoded) (mesh : 
   match decoderSides enc mesh decS posId with
   | .error _ => "hyp-fails:decoderSides"
   | .ok sides =>
-    let fails := (List.range enc.blocks.size).flatMap fun k =>
+    -- per block: (still hypothetical, derived by theorems — evaluated as a sanity check of the theorems)
+    let per := (List.range enc.blocks.size).map fun k =>
       let b := enc.blocks[k]!
       let (n, mdD, seqD, parentD) := sides[k]!
       let pointIdsD := seqD.pointIds
-      let hy := valueBlockHyps ch o.base b n mdD pointIdsD parentD
-      -- the conclusion
+      let tagOf := fun (nme : String) => s!"{b.attId}.{nme}"
+      -- the conclusion of the value-block theorems
       let comps := (g.atts.getD b.attId default).numComponents
       let concl :=
         match Eb.decodeIntegerValuesEb b.kind n b.nc comps mdD pointIdsD parentD
                 { rest := b.bytes ++ [85], version := 514 } with
         | (some (vals, _), st) => vals == b.portable && st.rest == [85]
         | _ => false
-      -- TVIso / MDIso between the decoder's and the encoder's mesh data (corner map of `processed`)
       let φ := phiOf enc.conn.processed
       let (psi, back, cback) := buildMaps mdD.t b.md.t φ
-      let iso := (if tvIsoCheck mdD.t b.md.t φ psi back cback then [] else ["tvIso"]) ++
-                 (if mdIsoCheck mdD b.md φ psi then [] else ["mdIso"]) ++
-                 -- the hypotheses of `eb_value_block_conditional_iso` (views isomorphic ⇒ block read back)
-                 (valueBlockHypsIso ch o.base b mdD.t seqD parentD φ psi back cback).map (· ++ "'") ++
+      -- HYPOTHESES of `eb_value_block_conditional_iso`: isomorphic views, `Hedge`, `OppInvol`, side conditions
+      -- (`decParent'` is kept here: its structural derivation `runs_valueBlock_views_struct` needs table invariants
+      -- of the decoder's corner table that are not evaluated separately)
+      let hyp := (valueBlockHypsIso ch o.base b mdD.t seqD parentD φ psi back cback).map (· ++ "'") ++
                  (if enc.conn.processed.size == mdD.t.numFaces then [] else ["processedSize"])
-      (hy ++ iso ++ (if concl then [] else ["conclusion"])).map fun nme => s!"{b.attId}.{nme}"
-    let side := if ctIsoSideOk enc.conn.ct mesh.numFaces mesh.c2v then [] else ["ctIsoSide"]
-    let all := fails ++ side
-    if all.isEmpty then "hyp-ok" else "hyp-fails:" ++ ",".intercalate all
+      -- DERIVED (theorems: `traversal_mdIso`, `encodeSchemeBlock_iso`, the conclusion): must hold whenever the
+      -- hypotheses do
+      let derived := (valueBlockHyps ch o.base b n mdD pointIdsD parentD) ++
+                     (if tvIsoCheck mdD.t b.md.t φ psi back cback then [] else ["tvIso"]) ++
+                     (if mdIsoCheck mdD b.md φ psi then [] else ["mdIso"]) ++
+                     (if concl then [] else ["conclusion"])
+      (hyp.map tagOf, derived.map tagOf)
+    let t := enc.conn.ct
+    let side := (if ctIsoSideOk t mesh.numFaces mesh.c2v then [] else ["ctIsoSide"]) ++
+                -- `hcover` of `eb_roundtrip_conditional`: the traversal reached every non-degenerate face
+                (if enc.conn.processed.size == t.numFaces - t.numDegenerated then [] else ["coverage"])
+    let hyps := per.flatMap (·.1) ++ side
+    let derived := per.flatMap (·.2)
+    if !hyps.isEmpty then "hyp-fails:" ++ ",".intercalate hyps
+    else if !derived.isEmpty then "hyp-derived-fails:" ++ ",".intercalate derived
+    else "hyp-ok"
 
 def errText : Eb.Err → String
   | .fail => "fail"
